@@ -1,11 +1,12 @@
 #!/bin/bash
 # scripts/mut_job.sh <ID> <X> <tier> <check IDs...> : confirm (with full suite) + evaluate one delivered change; appends to .build/mut/results.txt
+# X in A,B -> /tmp/mut/<ID>.out/<X>; X in C,D -> /tmp/mut/<ID>.out2/{A,B} (second round)
 cd "$(dirname "$0")/.."
 id="$1"; x="$2"; tier="$3"; shift 3
-d="/tmp/mut/$id.out/$x"
+case "$x" in A|B) d="/tmp/mut/$id.out/$x";; C) d="/tmp/mut/$id.out2/A";; D) d="/tmp/mut/$id.out2/B";; esac
 mkdir -p .build/mut
 {
-  echo "=== $id/$x $(jq -r .title $d/meta.json 2>/dev/null)"
-  scripts/mut_confirm.sh "$d" full 2>&1 | grep "^\[" 
+  echo "=== $id$x $(jq -r .title $d/meta.json 2>/dev/null)"
+  scripts/mut_confirm.sh "$d" full 2>&1 | grep "^\[" | grep -v "demo on clean tree:"
   scripts/mut_eval.sh "$id$x" "$d/patch.diff" "$tier" "$@" 2>&1 | tail -n $#
 } >> .build/mut/results.txt 2>&1
